@@ -42,7 +42,7 @@ parse_file (const char *file, eav_t *eav)
         len = strlen (cp);
 
         /* remove white-space in the end */
-        if (cp[len - 1] == ' ' || cp[len - 1] == '\t')
+        if (len > 0 && (cp[len - 1] == ' ' || cp[len - 1] == '\t'))
             cp[--len] = '\0';
 
         if (eav_is_email (eav, cp, len)) {
